@@ -11,3 +11,5 @@ open Biogo.Properties.C10
 #print axioms kmerOf_format
 #print axioms kmerOf_rejects
 #print axioms gc_spec
+#print axioms complement_spec
+#print axioms check_true
